@@ -44,6 +44,12 @@ def limits(fluid):
     return _LIMITS[fluid]
 
 
+def is_blend(fluid):
+    """Predefined refrigerant blends (R4xx / R5xx series and a few named mixtures): they have a temperature glide."""
+    f = str(fluid).upper()
+    return (f.startswith("R4") or f.startswith("R5") or f in ("AIR", "SES36")) and f not in ("R41",)
+
+
 def rel(a, b, r, floor=0.0):
     return abs(a - b) <= r * max(abs(a), abs(b), floor)
 
@@ -65,8 +71,8 @@ class C18(World):
     rule = (
         "each run = one generated history (3-16 steps) on 1-2 cycle objects: solve(fluid, Te, Tc, dT_sh, dT_sc, eta, Q, ihx_gas_dt=0), "
         "build(cond) / build(evap) / build(both), dtcont / dt_diff_max assignment, metric reads, re-solve with new arguments, deliberately "
-        "failing solves; fluids 70 % mainstream refrigerants, 30 % any CoolProp fluid; temperatures inside [max(Ttriple,Tmin)+1 K, Tcrit-1 K] "
-        "with any positive lift (>= 0.5 K, also smaller than superheat + subcooling).  distinct = distinct step list; non-trivial = >=1 successful solve followed by >=2 stream-set requests "
+        "failing solves; fluids 70 % mainstream refrigerants, 30 % any CoolProp fluid; temperatures inside [max(Ttriple,Tmin)+5 K, Tcrit-10 K] "
+        "with lift >= dT_sh + dT_sc + 2 K (+12 K for zeotropic blends).  distinct = distinct step list; non-trivial = >=1 successful solve followed by >=2 stream-set requests "
         "or a re-solve."
     )
     assumptions = [
@@ -106,7 +112,7 @@ class C18(World):
                 fl = "R134a"
                 lim = limits(fl)
             lo, tc, _ = lim
-            lo, hi = lo + 1.0, tc - 1.0
+            lo, hi = lo + 5.0, tc - 10.0
             # pressure floor on the evaporator side (bisection on an independent call): 1 kPa in the
             # "practical" swarm configuration, 10 Pa otherwise (below that the property library's own
             # flashes disagree with each other by more than the tolerances used here)
@@ -127,17 +133,19 @@ class C18(World):
                 pass
             dsh = float(args.choice([0, 0, 2, 5, 10]))
             dsc = float(args.choice([0, 0, 2, 5, 10]))
-            minlift = args.choice([0.5, 1.0, 3.0, dsh + dsc + 1.0, dsh + dsc + 5.0, dsh + dsc + 10.0, dsh + dsc + 25.0])  # any positive lift, incl. smaller than superheat + subcooling
+            # lift: at least superheat + subcooling + 2 K (the evaporator outlet stays colder than the condenser outlet);
+            # zeotropic blends need the lift to clear their temperature glide as well
+            minlift = dsh + dsc + args.choice([2.0, 3.0, 5.0, 10.0, 25.0]) + (12.0 if is_blend(fl) else 0.0)
             if hi - lo <= minlift + 1.0:
                 fl = "R134a"
                 lo, tc, _ = limits(fl)
-                lo, hi = lo + 1.0, tc - 1.0
+                lo, hi = lo + 5.0, tc - 10.0
             te = args.uniform(lo, max(lo, hi - minlift - 0.5))
             tcnd = args.uniform(min(te + minlift, hi), hi)
             if swarm["mainstream"] and args.random() < 0.25:
                 # round everyday operating points (0 C, 5 C, ... as an engineer would type them)
                 te_c, tc_c = float(args.choice([-10, 0, 0, 5, 10, 20])), float(args.choice([35, 40, 50, 60, 80]))
-                if lo <= te_c + 273.15 and tc_c + 273.15 <= hi and tc_c - te_c >= 0.5:
+                if lo <= te_c + 273.15 and tc_c + 273.15 <= hi and tc_c - te_c >= minlift:
                     te, tcnd = te_c + 273.15, tc_c + 273.15
             try:
                 ok_floor = CP.PropsSI("P", "T", te, "Q", 1, fl) >= floor * 0.999
@@ -471,7 +479,7 @@ class C18(World):
                         probe("re_solve")
                     m.update(solved=True, args=a, first={}, pattern=[], metrics=None, n_cond=None, n_evap=None)
                     lim = limits(a["refrigerant"])
-                    in_domain = lim is not None and lim[0] + 1.0 - 0.011 <= a["Te"] + 273.15 and a["Tc"] + 273.15 <= lim[1] - 1.0 + 0.011 and a["Tc"] - a["Te"] >= 0.5 - 1e-9 and op in ("solve", "solve_variant")
+                    in_domain = lim is not None and lim[0] + 5.0 - 0.011 <= a["Te"] + 273.15 and a["Tc"] + 273.15 <= lim[1] - 10.0 + 0.011 and a["Tc"] - a["Te"] >= a["dT_sh"] + a["dT_sc"] + 2.0 + (12.0 if is_blend(a["refrigerant"]) else 0.0) - 1e-9 and op in ("solve", "solve_variant")
                     if in_domain:
                         try:
                             in_domain = CP.PropsSI("P", "T", a["Te"] + 273.15, "Q", 1, a["refrigerant"]) >= 10.0 * 0.999
